@@ -1400,3 +1400,72 @@ Proof.
   cbn [forallb] in H. apply andb_true_iff in H as [H1 H2]. apply negb_true_iff in H1. cbn [nla_systems_from]. rewrite H1. cbn [andb].
   now apply IH.
 Qed.
+
+(** * the NLA functions are named after AnalyserEquation::nlaSystemIndex() — the number the call sites use *)
+Lemma nla_systems_from_sound : forall eqs pos handled idx n, In (idx, n) (nla_systems_from pos eqs handled) ->
+  exists e, In e eqs /\ is_nla (ae_type e) = true /\ ae_nla_index e = idx /\ length (ae_vars e) = n.
+Proof.
+  induction eqs as [|e eqs IH]; intros pos handled idx n H; cbn [nla_systems_from] in H; [contradiction|].
+  destruct (is_nla (ae_type e) && negb (existsb (Nat.eqb pos) handled)) eqn:E.
+  - destruct H as [H | H].
+    + inversion H; subst. apply andb_true_iff in E as [E _]. exists e. repeat split; auto. now left.
+    + destruct (IH _ _ _ _ H) as [e' [Hin R]]. exists e'. split; [now right | exact R].
+  - destruct (IH _ _ _ _ H) as [e' [Hin R]]. exists e'. split; [now right | exact R].
+Qed.
+
+Lemma nla_systems_sound : forall m idx n, In (idx, n) (nla_systems m) ->
+  exists e, In e (am_equations m) /\ is_nla (ae_type e) = true /\ ae_nla_index e = idx /\ length (ae_vars e) = n.
+Proof. intros m idx n. apply nla_systems_from_sound. Qed.
+
+(* nlaSiblings() of an NLA equation are equations of the same NLA system *)
+Definition sibs_consistent (eqs : list aeq) : Prop :=
+  forall e s, In e eqs -> is_nla (ae_type e) = true -> In s (ae_sibs e) ->
+  exists e', nth_error eqs s = Some e' /\ ae_nla_index e' = ae_nla_index e.
+
+Lemma nla_systems_from_complete : forall all, sibs_consistent all ->
+  forall rest pos handled emitted, rest = skipn pos all ->
+  (forall p, In p handled -> exists e', nth_error all p = Some e' /\ In (ae_nla_index e') emitted) ->
+  forall e p, nth_error all p = Some e -> pos <= p -> is_nla (ae_type e) = true ->
+  In (ae_nla_index e) (emitted ++ map fst (nla_systems_from pos rest handled))%list.
+Proof.
+  intros all SC. induction rest as [|e0 rest IH]; intros pos handled emitted Hr Hh e p Hp Hle Hn.
+  - exfalso. assert (L : length (skipn pos all) = 0) by now rewrite <- Hr. rewrite skipn_length in L.
+    assert (p < length all) by (apply nth_error_Some; congruence). lia.
+  - assert (H0 : nth_error all pos = Some e0).
+    { rewrite <- (firstn_skipn pos all) at 1. rewrite <- Hr.
+      assert (Lf : length (firstn pos all) = pos).
+      { apply firstn_length_le. assert (length (skipn pos all) > 0) by (rewrite <- Hr; simpl; lia). rewrite skipn_length in H. lia. }
+      rewrite nth_error_app2 by lia. rewrite Lf, Nat.sub_diag. reflexivity. }
+    assert (Hr' : rest = skipn (S pos) all).
+    { clear -Hr. revert pos Hr. induction all as [|a all IHa]; intros pos Hr; destruct pos; simpl in *; try discriminate.
+      - now inversion Hr.
+      - now apply IHa. }
+    cbn [nla_systems_from].
+    destruct (is_nla (ae_type e0) && negb (existsb (Nat.eqb pos) handled)) eqn:E.
+    + apply andb_true_iff in E as [En0 _]. cbn [map fst].
+      assert (Hh' : forall q, In q (handled ++ pos :: ae_sibs e0)%list ->
+                exists e', nth_error all q = Some e' /\ In (ae_nla_index e') (emitted ++ [ae_nla_index e0])%list).
+      { intros q Hq. apply in_app_iff in Hq as [Hq | [<- | Hq]].
+        - destruct (Hh q Hq) as [e' [A B]]. exists e'. split; [assumption|]. apply in_app_iff. now left.
+        - exists e0. split; [assumption|]. apply in_app_iff. right. now left.
+        - destruct (SC e0 q (nth_error_In _ _ H0) En0 Hq) as [e' [A B]]. exists e'. split; [assumption|].
+          apply in_app_iff. right. left. now symmetry. }
+      destruct (Nat.eq_dec p pos) as [-> | Hne].
+      * rewrite H0 in Hp. inversion Hp; subst. apply in_app_iff. right. now left.
+      * specialize (IH (S pos) (handled ++ pos :: ae_sibs e0)%list (emitted ++ [ae_nla_index e0])%list Hr' Hh' e p Hp ltac:(lia) Hn).
+        rewrite <- app_assoc in IH. exact IH.
+    + destruct (Nat.eq_dec p pos) as [-> | Hne].
+      * rewrite H0 in Hp. inversion Hp; subst. rewrite Hn in E. cbn [andb] in E. apply negb_false_iff in E.
+        apply existsb_exists in E as [q [Hq Eq]]. apply Nat.eqb_eq in Eq. subst q.
+        destruct (Hh pos Hq) as [e' [A B]]. rewrite H0 in A. inversion A; subst. apply in_app_iff. now left.
+      * apply (IH (S pos) handled emitted Hr' Hh e p Hp ltac:(lia) Hn).
+Qed.
+
+Lemma nla_systems_complete : forall m e, sibs_consistent (am_equations m) -> In e (am_equations m) -> is_nla (ae_type e) = true ->
+  exists n, In (ae_nla_index e, n) (nla_systems m).
+Proof.
+  intros m e SC Hin Hn. apply In_nth_error in Hin as [p Hp].
+  pose proof (nla_systems_from_complete (am_equations m) SC (am_equations m) 0 [] [] eq_refl
+                ltac:(intros q []) e p Hp ltac:(lia) Hn) as H.
+  cbn [app] in H. apply in_map_iff in H as [[idx n] [E Hin]]. simpl in E. subst idx. exists n. exact Hin.
+Qed.
